@@ -14,7 +14,7 @@ PROP = {
         "(the API returns them so that the operator can re-run recovery)",
         "the snapshot the restarted broker loads is a state reachable by broker operations (any prefix of any history)",
         "epochs do not wrap (u64; modelled as Nat)",
-        "non-ordered mode only; allocation choices as in C01/C04",
+        "both modes of MetaStore (enable_ordered_proxy off/on; the snapshot carries the mode); allocation choices as in C01/C04",
     ],
     "gaps": [
         "re-convergence ('after the next sync rounds all reachable proxies adopt the recovered view and the routing "
